@@ -18,6 +18,28 @@ for f in sorted(os.listdir(os.path.join(VERIF, 'rules'))):
 for pid in CLAIMED:
     assert pid not in NOT_APPLICABLE, pid
 
+import ast as _ast  # noqa: E402
+
+
+def engines_list():
+    out = []
+    edir = os.path.join(VERIF, 'engines')
+    uses = {}
+    for f in sorted(os.listdir(os.path.join(VERIF, 'rules'))):
+        if f.startswith('c') and f.endswith('.py') and f[1:-3].isdigit() and f[:-3].upper() in READY:
+            src = open(os.path.join(VERIF, 'rules', f)).read()
+            for e in os.listdir(edir):
+                if e.endswith('.py') and (('engines import' in src and e[:-3] in src) or f'engines.{e[:-3]}' in src):
+                    uses.setdefault(e[:-3], []).append(f[:-3].upper())
+    for e in sorted(os.listdir(edir)):
+        if not e.endswith('.py') or e == '__init__.py':
+            continue
+        doc = _ast.get_docstring(_ast.parse(open(os.path.join(edir, e)).read())) or ''
+        out.append({'name': e[:-3], 'path': f'engines/{e}', 'serves_properties': sorted(uses.get(e[:-3], [])),
+                    'kind_free_text': doc.strip().split('\n\n')[0].replace('\n', ' ')[:300]})
+    return out
+
+
 props = [json.loads(l) for l in open(os.path.join(VERIF, 'properties.jsonl'))]
 ids = [p['id'] for p in props]
 checks = []
@@ -50,7 +72,7 @@ manifest = {
         'source_commits': ENGINES.get('source_commits', []),
         'add_only': True,
     },
-    'engines': ENGINES['engines'],
+    'engines': engines_list(),
     'checks': checks,
     'not_applicable': na,
     'notes': 'All checks are static analyses over parsed Python/SQL/Scala source of /repo (never imported or executed). Exit 0 = rules hold '
